@@ -864,11 +864,14 @@ register("C02", run_C02, module="Robotools.Props.C02",
                    "compile_nonneg", "step_limits", "world_limits", "mk_valid", "trough_mk_valid")]
                   + ["Robotools.GenFns." + t for t in ("all_translated", "gen_add_step_spec", "gen_remove_step_spec", "gen_addStep_ok", "gen_removeStep_ok")],
          extra_modules=["Robotools.Proofs.GenFns"], rule="add/remove histories and worklist programs with boundary-biased volumes; rejected operations are followed by further operations")
-register("C03", run_C03, module="Robotools.Props.C03", extra_modules=["Robotools.Props.C01Dist"],
+register("C03", run_C03, module="Robotools.Props.C03", extra_modules=["Robotools.Props.C01Dist", "Robotools.Proofs.OrderOK"],
+         genok=["gen_orderAspirate_ok", "gen_orderDispense_ok", "gen_orderDistribute_ok", "gen_orderEvoAspirate_ok", "gen_orderEvoDispense_ok"],
          theorems=["Robotools.C03." + t for t in ("step_safe", "step_cfg", "step_wf", "abort_safe", "run_safe", "steps_bounded", "prepareAD_oversize", "pair_mem_plan_nosplit", "no_split_rejects")]
                   + ["Robotools.RP." + t for t in ("safe_append", "safe_rm_emit", "safe_ad_emit", "safe_compileTransfer", "compile_safe", "within_compile", "recs_within_exec")]
                   + ["Robotools.C01D.abort_safe_dist", "Robotools.C01D.abort_safe_evo", "Robotools.C01D.abort_safe_fluent", "Robotools.C01D.step_safeD", "Robotools.Dist.safe_compileDistribute", "Robotools.Dist.compileRD_cases",
-                     "Robotools.Dist.posInj_evo", "Robotools.Dist.nodup_pos"],
+                     "Robotools.Dist.posInj_evo", "Robotools.Dist.nodup_pos"]
+                  + ["Robotools.OrderOK." + t for t in ("compileAspirate_order", "compileDispense_order", "compileDistribute_order",
+                                                        "compileEvoAspirate_order", "compileEvoDispense_order")],
          rule="worklist programs whose last operation is built to fail at a chosen sub-step; records replayed after every operation")
 register("C04", run_C04, module="Robotools.Props.C04",
          theorems=["Robotools.C04." + t for t in ("micro_shape", "executed_prefix", "executed_all_of_ok", "exec_ledger", "exec_frame",
